@@ -327,13 +327,22 @@ func lifeCase(st *ekit.Stats, t *tran, k *kind, role, ops string) []viol {
 			continue
 		}
 		r := r
-		for _, pr := range r.recs() {
-			pr := pr
-			if !eventually(func() bool {
-				r.mu.Lock()
-				defer r.mu.Unlock()
-				return pr.closedInAttaching || pr.refused || pr.nAttached > 0
-			}) {
+		recs := r.recs()
+		resolved := func(pr *pipeRec) bool {
+			r.mu.Lock()
+			defer r.mu.Unlock()
+			return pr.closedInAttaching || pr.refused || pr.nAttached > 0
+		}
+		eventually(func() bool {
+			for _, pr := range recs {
+				if !resolved(pr) {
+					return false
+				}
+			}
+			return true
+		})
+		for _, pr := range recs {
+			if !resolved(pr) {
 				c.vs.add("fail", c.sig("attaching-unresolved"), "%v was reported Attaching on an open socket; %v later it is neither closed by the hook, nor refused by the protocol, nor reported Attached; %s", pr, watchdog, r.history())
 			}
 		}
